@@ -297,8 +297,15 @@ class PubHooks:
         from allmydata.mutable import publish as P
         H = self
         self._saved = (P.Publish.publish, P.Publish.update, P.Publish._push, P.Publish._got_write_answer,
-                       P.Publish._connection_problem)
-        o_publish, o_update, o_push, o_answer, o_problem = self._saved
+                       P.Publish._connection_problem, P.Publish._failure)
+        o_publish, o_update, o_push, o_answer, o_problem, o_failure = self._saved
+
+        def failure(p, f=None):
+            if f:
+                # an exception in the encode/push pipeline (e.g. update() of a file with a missing share number:
+                # KeyError in _push_segment) reaches _failure through an errback: not a bookkeeping decision
+                H.rec_of(p)["pipeline-error"] = type(f.value).__name__
+            return o_failure(p, f)
 
         def finish(res, r):
             from twisted.python.failure import Failure
@@ -352,11 +359,12 @@ class PubHooks:
             return o_problem(p, f, writer)
         P.Publish.publish, P.Publish.update, P.Publish._push = publish, update, push
         P.Publish._got_write_answer, P.Publish._connection_problem = answer, problem
+        P.Publish._failure = failure
 
     def uninstall(self):
         from allmydata.mutable import publish as P
         (P.Publish.publish, P.Publish.update, P.Publish._push, P.Publish._got_write_answer,
-         P.Publish._connection_problem) = self._saved
+         P.Publish._connection_problem, P.Publish._failure) = self._saved
 
 
 def run_scenario(ctx, sc, acc):
@@ -376,6 +384,19 @@ def run_scenario(ctx, sc, acc):
             try:
                 c = g.clients[0]
                 node = None
+
+                def W(d):
+                    # publishes use no timers: pump only what is due now, so that a hung server is seen as
+                    # quiescence at once (the servers' periodic crawler timers would otherwise keep the pump busy)
+                    from twisted.python.failure import Failure
+                    box = []
+                    d.addBoth(box.append)
+                    rt.pump(until=d, advance_time=False)
+                    if not box:
+                        raise grid.Stuck("quiescent")
+                    if isinstance(box[0], Failure):
+                        box[0].raiseException()
+                    return box[0]
 
                 def set_faults(plan):
                     for i, w in g.wrappers.items():
@@ -403,16 +424,16 @@ def run_scenario(ctx, sc, acc):
                     stuck = False
                     try:
                         if st["kind"] == "create":
-                            node = rt.wait(c.create_mutable_file(
+                            node = W(c.create_mutable_file(
                                 MutableData(data), version=MDMF_VERSION if sc["fmt"] == "m" else SDMF_VERSION,
                                 unique_keypair=mc.keypair()))
                         elif node is None:
                             continue
                         elif st["kind"] == "pub":
-                            rt.wait(node.overwrite(MutableData(data)))
+                            W(node.overwrite(MutableData(data)))
                         else:
-                            mv = rt.wait(node.get_best_mutable_version())
-                            rt.wait(mv.update(MutableData(data), min(st["off"], mv.get_size())))
+                            mv = W(node.get_best_mutable_version())
+                            W(mv.update(MutableData(data), min(st["off"], mv.get_size())))
                         outcome = "success"
                     except grid.Stuck:
                         outcome, stuck = "stuck", True
@@ -438,7 +459,11 @@ def run_scenario(ctx, sc, acc):
                             ctx.count("grid-success-shares:%s" % ("N" if len(holders) >= sc["n"] else ">=k"))
                         else:
                             ctx.count("grid-failed-publish-left-%s-shares" % ("k+" if len(holders) >= sc["k"] else "<k"))
-                        if r["writers"] is not None and r["result"] != "no-result" and not r.get("cs-changed"):
+                        if r.get("pipeline-error") or r["result"].startswith("raised:"):
+                            # an exception outside the bookkeeping (encode/push pipeline, or raised synchronously by
+                            # Publish.update, e.g. IndexError for an empty update): not a _push decision
+                            ctx.count("grid-publish-pipeline-error:" + (r.get("pipeline-error") or r["result"]))
+                        elif r["writers"] is not None and r["result"] != "no-result" and not r.get("cs-changed"):
                             mcase = {"k": r["k"], "cs": r["cs"] or 0, "vi": r.get("vi", True), "writers": r["writers"],
                                      "evs": r["evs"]}
                             left = sorted((w.shnum, H.sidx(w.server)) for ws in p.writers.values() for w in ws)
